@@ -29,6 +29,9 @@ def obligations(tier, ctx):
                 obs.append(Ob(name=f"sym_s{nsup}_p{has_pref}_ok", params=params, pre=pre,
                               call=f"H.nego({sup}, {'pref' if has_pref else 'None'}, 0, ans, 0, False, [1], 100)",
                               backend="F", timeout=400, family="symbolic versions / result answer"))
+    # the answer may be longer than the versions: substrings and superstrings of an offered version are not that version
+    obs.append(Ob(name="sym_s2_longer_answer", params=[("v0", "str"), ("v1", "str"), ("ans", "str")], pre=["len(v0) == 1", "len(v1) == 1", "len(ans) <= 2"],
+                  call="H.nego([v0, v1], None, 0, ans, 0, False, [1], 100)", backend="F", timeout=400, family="symbolic versions / result answer"))
     for kind, nm in ((1, "nonstr"), (2, "noserverinfo"), (3, "nocaps"), (5, "errtext"), (6, "silence")):
         obs.append(Ob(name=f"sym_s2_{nm}", params=[("v0", "str"), ("v1", "str"), ("pref", "str"), ("ans", "str")],
                       pre=["len(v0) == 1", "len(v1) == 1", "len(pref) == 1", "len(ans) <= 1"],
@@ -46,7 +49,7 @@ def obligations(tier, ctx):
                 ng = 1 + distractor
                 gl = "[" + ", ".join(f"g{i}" for i in range(ng)) + "]"
                 params = [("a", "int")] + [(f"g{i}", "int") for i in range(ng)] + [("T", "int")]
-                pre = ["0 <= a <= 5"] + [f"0 <= g{i} <= 120" for i in range(ng)] + ["1 <= T <= 150"]
+                pre = ["0 <= a <= 9"] + [f"0 <= g{i} <= 120" for i in range(ng)] + ["1 <= T <= 150"]
                 tag = "".join(map(str, sup)) + "_p" + (str(pref) if pref >= 0 else "none") + ("_d" if distractor else "")
                 obs.append(Ob(name=f"sel_{tag}", params=params, pre=pre,
                               call=f"H.nego_sel({list(sup)!r}, {pref}, 0, a, 0, {bool(distractor)}, {gl}, T)",
